@@ -34,6 +34,9 @@ type Msg struct {
 	Data       []byte
 	Compressed bool
 	Fragments  int
+	// EndsBeforeLastFragment: compressed, fragmented, and the DEFLATE stream is
+	// complete (BFINAL block) before the payload of the last fragment.
+	EndsBeforeLastFragment bool
 }
 
 // EndKind says how the model's processing of a byte stream ended.
@@ -174,6 +177,14 @@ func prefixClean(partial []byte, limit int64) bool {
 	}
 }
 
+// deflateEnded reports whether b contains a complete DEFLATE stream (final block seen).
+func deflateEnded(b []byte) bool {
+	fr := getInflater(bytes.NewReader(b))
+	defer inflaters.Put(fr)
+	_, err := io.Copy(io.Discard, fr)
+	return err == nil
+}
+
 // Deflate compresses data into a permessage-deflate message payload.
 // mode 0: one sync flush at the end (tail stripped); mode 1: additional sync
 // flushes inside (embedded 00 00 ff ff markers stay); mode 2: stream finished with
@@ -232,6 +243,7 @@ func decode(stream []byte, cfg RecvConfig) (out Outcome) {
 	var curBuf []byte
 	var wire int64
 
+	lastStart := 0 // offset in curBuf of the most recent fragment
 	ctrlInMsg := 0 // control frames interleaved in the current message
 	defer func() {
 		if inMsg {
@@ -394,11 +406,15 @@ func decode(stream []byte, cfg RecvConfig) (out Outcome) {
 				truncated(nil)
 			case h.Opcode == OpCont:
 				truncated(part)
+				curBuf = append(curBuf, part...)
 			default: // first frame of a message
 				out.End = EndTruncated
 				if h.RSV1 && !prefixClean(part, cfg.InflatedLimit) {
 					out.Ambiguous = true
 				}
+				inMsg = true
+				cur = Msg{Type: h.Opcode, Compressed: h.RSV1}
+				curBuf = part
 			}
 			return out
 		}
@@ -459,6 +475,7 @@ func decode(stream []byte, cfg RecvConfig) (out Outcome) {
 			ctrlInMsg = 0
 		}
 		cur.Fragments++
+		lastStart = len(curBuf)
 		curBuf = append(curBuf, f.Payload...)
 		if !f.Fin {
 			continue
@@ -488,6 +505,9 @@ func decode(stream []byte, cfg RecvConfig) (out Outcome) {
 				return out
 			}
 			data = d
+			if cur.Fragments > 1 {
+				cur.EndsBeforeLastFragment = deflateEnded(curBuf[:lastStart])
+			}
 		}
 		if cur.Type == OpText && !utf8.Valid(data) {
 			out.InvalidUTF8++
